@@ -37,13 +37,13 @@ def queries(tier):
     def q(name, defs, fns, unwind=5, backends=('cadical', 'minisat'), **kw):
         defs = dict(defs)
         defs.setdefault('KIT_MAXW', 4)
-        qs.append(Query(name=name, harness=H, units=UNITS, defs=defs, unwind=unwind, cap=cap, backends=list(backends),
-                        functions=fns, **kw))
+        qs.append(Query(name=name, harness=H, units=UNITS, defs=defs, unit_defs={'KIT_FLAT_NUMERIC': 1}, unwind=unwind, cap=cap,
+                        backends=list(backends), functions=fns, **kw))
     for op in ('ADD', 'SUB'):
         for a in range(1, K + 1):
             for b in range(1, K + 1):
-                if tier == 'quick' and a + b > 3:
-                    continue
+                if tier == 'quick' and a + b > 2:
+                    continue    # 2x1 and larger take 2-4 min each: thorough tier
                 q('bignum_%s[%d,%d]' % (op.lower(), a, b), {'OP': OPN[op], 'AK': a, 'BK': b}, ['sexp_bignum_' + op.lower()], backends=pf)
                 q('bignum_%s[%d,%d,dst=a]' % (op.lower(), a, b), {'OP': OPN[op], 'AK': a, 'BK': b, 'ALIAS': 1}, ['sexp_bignum_' + op.lower()], backends=pf)
         if tier != 'quick':
